@@ -32,3 +32,17 @@ CHECKS["C18"] = {
         rapid_job("modes", "./verifh/c18", "TestModeOps|TestModeSum", 30000, 150000),
     ],
 }
+
+CHECKS["C05"] = {
+    "rule": ("rapid-generated tuples (stored, written, update mask, writable mask, extra-writable, all-writable, reset mask) over TestAllTypes and 10 trait "
+             "messages, executed through FieldUpdater.Validate+Merge, Value.Set and Collection.Update, plus sequences of 2-5 writes on one resource; "
+             "oracle = independent protoreflect reference update + frame condition + rejection rules. non-trivial = non-nil update mask with a nested path, "
+             "stored message populated outside the mask, and the write changed the stored value (or a multi-write sequence using per-write extra writable paths); "
+             "distinct by the printed tuple"),
+    "assumptions": ["masks with duplicates / parent+child paths and update masks strictly broader than the writable fields are 'unspecified': accepted-with-frame-intact or rejected-with-no-change both pass",
+                    "presence of empty intermediate messages on mask paths is not compared"],
+    "jobs": [
+        rapid_job("tuples", "./verifh/c05", "TestMaskedWrite", 20000, 120000),
+        rapid_job("sequences", "./verifh/c05", "TestWriteSequence", 6000, 40000),
+    ],
+}
